@@ -16,7 +16,7 @@ THEOREMS = ["Mpir.Mpf." + t for t in """
     mpf_add_same_sign mpf_add_same_sign_exact_if_fits mpf_add_zero
     mpf_div_err mpf_div_zero mpf_div_ui_err mpf_ui_div_err mpf_set_q_err
     mpf_sqrt_err mpf_sqrt_neg_zero mpf_sqrt_ui_err
-    mpf_sub_err mpf_add_err mpf_sub_ui_err mpf_ui_sub_err
+    mpf_sub_err mpf_add_err mpf_sub_exact_if_fits mpf_add_exact_if_fits mpf_sub_ui_err mpf_ui_sub_err
     mpf_add_ui_err mpf_mul_ui_err mpf_set_d_exact_partial mpf_set_d_special wf_preserved
 """.split()]
 TRUSTED = ["hand-written bit-exact mpf model lean/Mpir/Model/Mpf.lean (limb selection, truncation and normalisation mirror mpf/*.c; "
